@@ -229,14 +229,31 @@ def run_case(case, ctx):
 						session.delete(taxon)
 					elif what == 'gset':
 						gset.name = 'renamed'
+					elif what == 'attr_then_delete':
+						# one object both modified and marked for deletion before the next flush
+						taxon.name = 'EDITED BY VERIF'
+						taxon.distance_threshold = 0.123
+						session.delete(taxon)
+					elif what == 'annotation_edit_delete':
+						ag = gset.genomes.first()
+						ag.organism = 'EDITED BY VERIF'
+						session.delete(ag)
 					committed = None
 					for act in step['then']:
-						if act == 'flush':
-							session.flush()
-						elif act == 'autoflush_query':
-							session.query(Taxon).filter(Taxon.name == 'EDITED BY VERIF').count()
-							session.query(Genome).count()
-						elif act == 'commit':
+						try:
+							if act == 'flush':
+								session.flush()
+							elif act == 'autoflush_query':
+								session.query(Taxon).filter(Taxon.name == 'EDITED BY VERIF').count()
+								session.query(Genome).count()
+						except Exception as e:
+							if 'readonly database' in str(e) or 'attempt to write' in str(e):
+								# the file is opened read-only, so SQLite refused it - but the session did try to flush pending changes
+								raise Violation('write_attempted', f'step {i} {step}: {act} made the default session send a write to the database: {str(e)[:200]}', case)
+							raise
+						if act in ('flush', 'autoflush_query'):
+							continue
+						if act == 'commit':
 							try:
 								session.commit()
 								committed = True
@@ -379,10 +396,10 @@ STEP = st.one_of(
 	st.builds(lambda v: {'t': 'cli_bad', 'variant': v}, st.sampled_from(['missing_file', 'bad_option', 'no_input', 'both_inputs', 'sig_mismatch', 'not_fasta', 'dist_no_query'])),
 	st.builds(lambda s, c, k: {'t': 'lib_query', 'strict': s, 'chunksize': c, 'keep_open': k}, st.booleans(), st.sampled_from([1000, None, 1]), st.booleans()),
 	st.builds(lambda via, what, then, close: {'t': 'lib_edit', 'via': via, 'what': what, 'then': then, 'close': close},
-	          st.sampled_from(['load_genomeset', 'sessionmaker', 'refdb']), st.sampled_from(['attr', 'add', 'delete', 'gset']),
+	          st.sampled_from(['load_genomeset', 'sessionmaker', 'refdb']), st.sampled_from(['attr', 'add', 'delete', 'gset', 'attr_then_delete', 'annotation_edit_delete']),
 	          st.lists(st.sampled_from(['flush', 'autoflush_query', 'commit', 'rollback']), min_size=1, max_size=4), st.booleans()),
 	st.builds(lambda via, what, then, close: {'t': 'lib_edit', 'via': via, 'what': what, 'then': then, 'close': close},
-	          st.sampled_from(['load_genomeset', 'sessionmaker', 'refdb']), st.sampled_from(['attr', 'add', 'delete', 'gset']),
+	          st.sampled_from(['load_genomeset', 'sessionmaker', 'refdb']), st.sampled_from(['attr', 'add', 'delete', 'gset', 'attr_then_delete', 'annotation_edit_delete']),
 	          st.just(['flush', 'autoflush_query', 'commit']), st.booleans()),
 	st.just({'t': 'lib_open_sigs_twice'}),
 	st.just({'t': 'close_handles'}),
